@@ -2,6 +2,7 @@ import Driver.Core
 import Mltwist.Generated.Riscv32
 import Mltwist.Generated.Riscv64
 import Mltwist.Spec.Riscv
+import Mltwist.Spec.RiscvLift
 /-
 Handlers for the RISC-V front end: C01 (semantics), C02 (decoding), C25 (text).
 -/
@@ -59,44 +60,33 @@ def envOfSt (s : St) : Env :=
         | none => 0
     mem := fun k a => if k == "memory" then s.mem a else 0 }
 
-open Spec.Rv in
-/-- apply lifted effects to a reference state: all evaluated in the pre-state, applied in order;
-an instruction-pointer write is a jump, otherwise execution falls through.
-Returns `none` if an effect writes something that is not a RISC-V register/CSR/memory. -/
-def applyEffects (xlen : Nat) (s : St) (efs : List Effect) : Option St := do
-  let ρ := envOfSt s
-  let mut t := { s with pc := (s.pc + 4) % 2 ^ xlen }
-  for ef in efs do
-    match ef with
-    | .regStore v k w =>
-      let val := trunc w (v.eval ρ)
-      if k == "#r:w:ip" then t := { t with pc := val }
-      else match keyNum "x" k with
-        | some n => if n = 0 ∨ n ≥ 32 then none else t := t.set n val
-        | none => match keyNum "csr" k with
-          | some n => t := t.setCsr (n % 4096) val
-          | none => none
-    | .memStore v k a w =>
-      if k != "memory" then none
-      else t := t.store (a.eval ρ % 2 ^ 64) (trunc w (v.eval ρ)) w
-  pure t
+/-- is `k` the name of a general register x1..x31, of a CSR, or the instruction pointer? -/
+def knownRegKey (k : String) : Bool :=
+  k == Spec.Lift.ipKey ||
+  (match keyNum "x" k with | some n => 1 ≤ n && n < 32 && Spec.Lift.xName n == k | none => false) ||
+  (match keyNum "csr" k with | some n => Spec.Lift.csrName (n % 4096) == k | none => false)
 
-open Spec.Rv in
-/-- first difference between two states on the relevant locations -/
-def stDiff (xlen : Nat) (word : Nat) (pre a b : St) : Option String :=
-  let regs := (List.range 32).find? fun r => a.get r != b.get r
+def effectsWellTargeted (efs : List Effect) : Bool :=
+  efs.all fun ef => match ef with
+    | .regStore _ k _ => knownRegKey k
+    | .memStore _ k _ _ => k == Spec.Lift.memKey
+
+open Spec.Rv Spec.Lift in
+/-- first difference between the valuation after the effects and the reference post-state -/
+def postDiff (xlen word : Nat) (pre : St) (ρ' : Env) (ip : Nat) (ref : St) : Option String :=
+  let regs := (List.range 32).find? fun r => r ≥ 1 && ρ'.reg (xName r) != ref.get r
   let cn := csrNum word
   let base := pre.get (rs1 word)
   let cands := [base, wrap xlen ((base : Int) + immI word), wrap xlen ((base : Int) + immS word)]
   let addrs := cands.flatMap fun c => (List.range 8).map (c + ·)
-  let mems := addrs.find? fun x => a.mem x % 256 != b.mem x % 256
-  if a.pc % 2 ^ xlen != b.pc % 2 ^ xlen then some s!"pc {a.pc} vs reference {b.pc}"
+  let mems := addrs.find? fun x => x < 2 ^ 64 && ρ'.mem memKey x % 256 != ref.mem x % 256
+  if ip % 2 ^ xlen != ref.pc % 2 ^ xlen then some s!"pc {ip} vs reference {ref.pc}"
   else match regs with
-  | some r => some s!"x{r} = {a.get r} vs reference {b.get r}"
+  | some r => some s!"x{r} = {ρ'.reg (xName r)} vs reference {ref.get r}"
   | none =>
-    if a.csr cn != b.csr cn then some s!"csr {cn} = {a.csr cn} vs reference {b.csr cn}"
+    if ρ'.reg (csrName cn) != ref.csr cn then some s!"csr {cn} = {ρ'.reg (csrName cn)} vs reference {ref.csr cn}"
     else match mems with
-    | some x => some s!"memory[{x}] = {a.mem x % 256} vs reference {b.mem x % 256}"
+    | some x => some s!"memory[{x}] = {ρ'.mem memKey x % 256} vs reference {ref.mem x % 256}"
     | none => none
 
 def rvSeeds : List Nat := [11, 12, 13, 14, 15, 16, 17, 18]
@@ -134,15 +124,45 @@ def hRvParse : Handler := fun args res => do
       | some n => if fmtText n == nameTok then none else some s!"named {nameTok}, the specification says {n}"
     let sem : Option String := match spec with
       | none => none
-      | some n => rvSeeds.findSome? fun seed =>
+      | some n =>
+        if !effectsWellTargeted efs then some "an effect writes something that is not a register, CSR or memory"
+        else rvSeeds.findSome? fun seed =>
           let pre := rvState xlen seed (addr % 2 ^ xlen)
-          match Spec.Rv.exec xlen n word pre, applyEffects xlen pre efs with
-          | some ref, some got => (stDiff xlen word pre got ref).map (s!"state seed {seed}: " ++ ·)
-          | none, _ => some s!"reference has no semantics for {n}"
-          | _, none => some "an effect writes something that is not a register, CSR or memory"
+          if !Spec.Rv.noWrap xlen n word pre then none else
+          match Spec.Rv.exec xlen n word pre with
+          | none => some s!"reference has no semantics for {n}"
+          | some ref =>
+            let ρ := envOfSt pre
+            let ρ' := Spec.Lift.Env.applyEffects ρ efs
+            let ip := Spec.Lift.nextIp ρ efs ((pre.pc + 4) % 2 ^ xlen)
+            (postDiff xlen word pre ρ' ip ref).map (s!"state seed {seed}: " ++ ·)
     return { corr := corrOf model istr, oracle := nameOk <|> sem,
              tags := tags0 ++ ["accepted", nameTok] }
   | _ => throw "bad rvparse result"
+
+/-- `rvpair <32|64> <exts> <addr> <hex1> <hex2>`: C25 — two words at one address whose lifted
+behaviour differs must not be shown with identical text; the text starts with the mnemonic. -/
+def hRvPair : Handler := fun args res => do
+  let (variant, exts, addr, b1, b2) ← runP (do
+    let v ← next; let e ← next; let a ← pNat; let b1 ← pHex; let b2 ← pHex; pure (v, e, a, b1, b2)) args
+  let tbl ← instructionSet variant exts
+  let model := rvModel tbl addr b1 ++ " || " ++ rvModel tbl addr b2
+  let istr := " ".intercalate res
+  let r1 := res.takeWhile (· ≠ "||")
+  let r2 := (res.dropWhile (· ≠ "||")).drop 1
+  let tags0 := [variant, exts]
+  match r1, r2 with
+  | "ok" :: n1 :: _ :: _ :: t1 :: e1, "ok" :: n2 :: _ :: _ :: t2 :: e2 =>
+    let orc := firstFail [
+      (t1.startsWith (n1 ++ "%20") || t1 == n1 ++ "%20" || t1 == n1, "text does not start with the mnemonic"),
+      (t2.startsWith (n2 ++ "%20") || t2 == n2, "text does not start with the mnemonic"),
+      (t1 != t2 || e1 == e2, s!"identical text {t1} for words with different lifted effects")]
+    return { corr := corrOf model istr, oracle := orc,
+             tags := tags0 ++ ["bothok", n1, if t1 == t2 then "sametext" else "difftext",
+                               if e1 == e2 then "sameeffects" else "diffeffects"] }
+  | _, _ =>
+    return { corr := corrOf model istr, oracle := if res.contains "PANIC" then some "panic" else none,
+             oracleNA := !res.contains "PANIC", tags := tags0 ++ ["notboth"] }
 
 /-- `rvspec`: prints the reference encoding table (used by the case generator):
 `<n> name match mask ext rv32 rv64 …` in the `C=diff:` field. -/
@@ -153,6 +173,6 @@ def hRvSpec : Handler := fun _ _ => do
     acc ++ s!" {r.name} {r.mtch} {r.mask} {ext r.ext} {r.rv32} {r.rv64}") (toString rows.length)
   return { corr := some txt, oracleNA := true }
 
-def rvHandlers : List (String × Handler) := [("rvparse", hRvParse), ("rvspec", hRvSpec)]
+def rvHandlers : List (String × Handler) := [("rvparse", hRvParse), ("rvpair", hRvPair), ("rvspec", hRvSpec)]
 
 end Driver
